@@ -329,8 +329,12 @@ def violation_frames(case, enc):
     elif cls == 'rsv23_with_ext':
         vmark()
         r = rng.choice([1, 2, 3])
-        op = rng.choice([1, 2] if not inside else [0])
-        ST.emit(enc, op, pay, rsv1=rng.choice([0, 1]) if op else 0,
+        # data frames, and control frames as well (also legal inside a
+        # fragmented message): permessage-deflate defines RSV1 only
+        op = rng.choice([1, 2, 8, 9, 10] if not inside else [0, 9, 10, 8])
+        body = pay if op < 8 else (pay[:100] if op != 8 else
+                                   peer.enc_close_payload(1000, 'x'))
+        ST.emit(enc, op, body, rsv1=rng.choice([0, 1]) if op in (1, 2) else 0,
                 rsv2=r >> 1, rsv3=r & 1)
     elif cls == 'fragmented_control':
         vmark()
